@@ -89,7 +89,7 @@ func runC10(c *Ctx) {
 	depth := 3
 	cfgs := []Cfg{{Async: 1}, {Async: 2}, {Async: 3}, {Async: 1, Lower: true, Ext: ".obj"}}
 	if c.Tier == "thorough" {
-		depth = 4
+		depth = 5
 		cfgs = append(cfgs, Cfg{Async: 1, Cache: true, Compress: true}, Cfg{Async: 2, Index: 2, MapRev: true})
 	}
 	// (A) sequential histories with explicit clock ticks
